@@ -395,16 +395,23 @@ def py_mod(a, b):
 
 
 def bit_and_const(x, m):
-    """x & m for z3 Int x >= 0 and host int m >= 0, in LIA."""
+    """x & m for z3 Int x >= 0 and host int m >= 0, in LIA: one div/mod term
+    per maximal run of set bits in m."""
     terms = []
     k = 0
     while (m >> k):
         if (m >> k) & 1:
-            terms.append(((x / (1 << k)) % 2) * (1 << k))
-        k += 1
+            a = k
+            while (m >> k) & 1:
+                k += 1
+            width = k - a
+            t = x / (1 << a) if a else x
+            terms.append((t % (1 << width)) * (1 << a))
+        else:
+            k += 1
     if not terms:
         return z3.IntVal(0)
-    return z3.Sum(terms)
+    return z3.Sum(terms) if len(terms) > 1 else terms[0]
 
 
 def bitop(interp, op, a, b):
@@ -547,7 +554,89 @@ _DUNDER = {ast.Add: '__add__', ast.Sub: '__sub__', ast.Mult: '__mul__',
            ast.BitXor: '__xor__'}
 
 
+BVW = 256
+
+
+def bv_of(v):
+    """(bitvec, bits) for a bit-vector backed SInt or a small non-negative
+    host int, else None."""
+    if isinstance(v, SInt) and v.bv is not None:
+        return v.bv, v.bits
+    if isinstance(v, int) and not isinstance(v, bool) and v >= 0 \
+            and v.bit_length() <= 250:
+        return z3.BitVecVal(v, BVW), max(1, v.bit_length())
+    return None
+
+
+def mk_bv(bv, bits):
+    bv = z3.simplify(bv)
+    if z3.is_bv_value(bv):
+        return bv.as_long()
+    return SInt(None, bv, bits)
+
+
+def bv_binop(interp, op, a, b):
+    """Integer operators in the bit-vector theory when both operands are
+    bit-vector backed and the tracked bound shows no wrap-around."""
+    if not ((isinstance(a, SInt) and a.bv is not None)
+            or (isinstance(b, SInt) and b.bv is not None)):
+        return None
+    x = bv_of(a)
+    y = bv_of(b)
+    if x is None or y is None:
+        return None
+    (xa, na), (yb, nb) = x, y
+    if op is ast.Add:
+        n = max(na, nb) + 1
+        return mk_bv(xa + yb, n) if n <= 255 else None
+    if op is ast.Mult:
+        n = na + nb
+        return mk_bv(xa * yb, n) if n <= 255 else None
+    if op is ast.BitAnd:
+        return mk_bv(xa & yb, min(na, nb))
+    if op is ast.BitOr:
+        return mk_bv(xa | yb, max(na, nb))
+    if op is ast.BitXor:
+        return mk_bv(xa ^ yb, max(na, nb))
+    if op in (ast.LShift, ast.RShift) and isinstance(b, int):
+        if op is ast.LShift:
+            n = na + b
+            return mk_bv(xa << b, n) if n <= 255 else None
+        return mk_bv(z3.LShR(xa, b), max(1, na - b))
+    if op in (ast.FloorDiv, ast.Mod) and isinstance(b, int) and b > 0 \
+            and b & (b - 1) == 0:
+        k = b.bit_length() - 1
+        if op is ast.FloorDiv:
+            return mk_bv(z3.LShR(xa, k), max(1, na - k))
+        return mk_bv(xa & z3.BitVecVal(b - 1, BVW), min(na, max(1, k)))
+    if op is ast.Sub:
+        # only when it cannot go negative
+        if interp.path.implied(z3.UGE(xa, yb)):
+            return mk_bv(xa - yb, na)
+        return None
+    return None
+
+
+def bv_compare(interp, op, a, b):
+    if not ((isinstance(a, SInt) and a.bv is not None)
+            or (isinstance(b, SInt) and b.bv is not None)):
+        return None
+    x = bv_of(a)
+    y = bv_of(b)
+    if x is None or y is None:
+        return None
+    xa, yb = x[0], y[0]
+    r = {ast.Eq: lambda: xa == yb, ast.NotEq: lambda: xa != yb,
+         ast.Lt: lambda: z3.ULT(xa, yb), ast.LtE: lambda: z3.ULE(xa, yb),
+         ast.Gt: lambda: z3.UGT(xa, yb),
+         ast.GtE: lambda: z3.UGE(xa, yb)}.get(op)
+    return None if r is None else mk_bool(r())
+
+
 def num_binop(interp, op, a, b):
+    r = bv_binop(interp, op, a, b)
+    if r is not None:
+        return r
     p = interp.path
     real = is_real(a) or is_real(b) or op is ast.Div
     if op in (ast.BitAnd, ast.BitOr, ast.BitXor):
@@ -666,6 +755,9 @@ def py_eq(interp, a, b):
             return a == b
         if is_real(a) or is_real(b):
             return mk_bool(zreal(a) == zreal(b))
+        r = bv_compare(interp, ast.Eq, a, b)
+        if r is not None:
+            return r
         return mk_bool(zint(a) == zint(b))
     if isinstance(a, (SBytes, bytes, bytearray)) and \
             isinstance(b, (SBytes, bytes, bytearray)):
@@ -722,6 +814,9 @@ def order(interp, op, a, b):
         if is_real(a) or is_real(b):
             x, y = zreal(a), zreal(b)
         else:
+            r = bv_compare(interp, op, a, b)
+            if r is not None:
+                return r
             x, y = zint(a), zint(b)
         return mk_bool({ast.Lt: x < y, ast.LtE: x <= y, ast.Gt: x > y,
                         ast.GtE: x >= y}[op])
